@@ -263,6 +263,10 @@ pub fn run(t: &[&str]) -> String {
             let st = |c: &Result<Result<(), std::io::Error>, ()>| match c { Err(()) => "compile-panic", Ok(Err(_)) => "compile-err", Ok(Ok(())) => "ok" };
             if st(&c1) != st(&c2) || code1 != code2 { engine_out_ref.push(format!("{}=nonrepeatable:{}:{}", e, st(&c1), st(&c2))); continue; }
             if st(&c1) != "ok" { engine_out_ref.push(format!("{}={}", e, st(&c1))); continue; }
+            if e == "clif" {
+                let ir = match &vm { Vm::Mbuff(v) => v.verif_clif_ir(), Vm::Raw(v) => v.verif_clif_ir(), Vm::NoData(v) => v.verif_clif_ir(), Vm::Fixed(v) => v.verif_clif_ir() };
+                if let Some(ir) = ir { let (n, d) = crate::clifir::digest(ir); engine_out_ref.push(format!("clifir={}.{:016x}", n, d)); }
+            }
             let code_info = match &code1 { Some(c) => format!(":code={}.{:016x}", c.len(), fnv(c)), None => String::new() };
             if let Some(c) = &code1 { engine_out_ref.push(format!("jitcode={}.{:016x}", c.len(), fnv(c)));
                 let sz = match &vm { Vm::Mbuff(v) => v.verif_jit_sizing(), Vm::Raw(v) => v.verif_jit_sizing(), Vm::NoData(v) => v.verif_jit_sizing(), Vm::Fixed(v) => v.verif_jit_sizing() };
